@@ -15,7 +15,7 @@ PROPS['C03'] = dict(
         D('MCMessageImpl', 'MCMessageImpl_mut_nomutex.cfg', expect='fail'),
         D('MCMessageImpl', 'MCMessageImpl_mut_noguard.cfg', expect='fail', violates='NotBoth'),
     ],
-    traces={'MessageTrace': dict(module='MessageTrace', cfg='MessageTrace.cfg')},
+    traces={'MessageTrace': dict(module='MessageTrace', cfg='MessageTrace.cfg', chunk=400000)},   # linear trace spec (no silent steps): big chunks
     selftests=[('MessageTrace', 'flip', dict(e='op', field='res'))],
     rule='runs = all sequential histories of length N over {Ack,Nack,RdAck,RdNack} on 4 kinds of message (new, zero-value, copies of settled '
          'messages), random concurrent histories of 2..16 goroutines, and forced overlaps (one caller parked inside the critical section); '
@@ -130,7 +130,7 @@ _GC = dict(
                ('GoChannelTrace', 'drop', dict(e='ack'))],
     exhaustive=False,
     assumptions=['linearization points of Publish and Subscribe are not observed; TLC searches them (silent steps)',
-                 'quiescence is declared by the harness after all calls returned and no event was recorded for 60 ms (bounded wait 5 s)',
+                 'quiescence is declared by the harness after all calls returned, its own lower bound of deliveries was acked (bounded wait 10 s) and no event was recorded for 60 ms',
                  'which interleavings occur in un-gated scenarios depends on the Go scheduler and yield injection at the hook points'],
 )
 PROPS['C04'] = dict(_GC, design=[D('MCGoChannelImpl','MCGoChannelImpl_volatile.cfg', coverage=True, allow_zero=['Cancel','TWake','TCloseOut','TAnnounce','TRemove','XStart','XWait','PWait']), D('MCGoChannelImpl','MCGoChannelImpl_persistent.cfg'), D('MCGoChannelImpl','MCGoChannelImpl_mut_persistoutside.cfg', expect='fail', violates='OneSenderPerPair')], rule='runs = small configurations exhaustively ({buffer 0,1} x {persistent} x {blocking} x consumer behaviour pairs x subscribe phase), forced '
@@ -254,7 +254,7 @@ PROPS['C17'] = dict(
 PROPS['C16'] = dict(
     level='exploration',
     design=[D('MCValues', 'MCValues.cfg')],
-    traces={'ValuesTrace': dict(module='ValuesTrace', cfg='ValuesTrace.cfg', timeout=1800, heap='12g')},
+    traces={'ValuesTrace': dict(module='ValuesTrace', cfg='ValuesTrace.cfg', timeout=1800, heap='12g', chunk=400000)},
     rule='runs = (1) every sequence of length 3 (4 in thorough) over {New (incl. zero-value messages with nil metadata), Copy, metadata writes} on 3 cells with the heap and all pairwise '
          'Equals results observed after each step, (2) pairs of messages differing in exactly one component (UUID, payload, one value, one key with an empty value, an extra key) for all '
          'combinations of string classes {empty, ascii, control/quote/U+2028, multi-byte} and payload classes {nil, empty, 0x00, 0xff, ascii, random <= 4 KiB}, (3) codec round trips '
